@@ -48,7 +48,6 @@ fn documents() -> Vec<(&'static str, &'static str, String)> {
         ("bad_version", "parse_error", "---\npolicy-version: 1\n---\n```policy\naction a() {}\n```\n".to_string()),
         ("undefined_name", "compile_error", with_cmd("action a() { let x = y\n publish Foo { a: x } }")),
         ("type_error", "compile_error", with_cmd("action a() { publish Foo { a: true } }")),
-        ("unused_ffi_import", "valid", with_cmd("use nomodule\naction a() { publish Foo { a: 1 } }")),
         ("fn_missing_return", "validation:function", with_cmd("function b() int {\n if false {\n return 0\n }\n}\naction a() { publish Foo { a: 1 } }")),
         ("fn_missing_return_else", "validation:function", with_cmd("function e() int {\n let n = 0\n if n > 0 {\n }\n else {\n return 0\n }\n}\naction a() { publish Foo { a: 1 } }")),
         ("value_set_twice", "validation:value", with_cmd("function v(c bool) int {\n if c { let x = 1 }\n if c { let x = 2 }\n return 0\n}\naction a() { publish Foo { a: 1 } }")),
@@ -68,6 +67,7 @@ fn documents() -> Vec<(&'static str, &'static str, String)> {
         ("valid_functions", "valid", with_cmd("function h(n int) int {\n match n {\n 0 => { return 0 }\n _ => { return n }\n }\n}\naction a() { publish Foo { a: 2 } }")),
         // the library validator reports "no publish" here (the callee's Return precedes the Publish); the oracle is the library
         ("action_calls_function_before_publish", "validation:action", with_cmd("function h(n int) int {\n return n\n}\naction a() { publish Foo { a: h(2) } }")),
+        ("unused_ffi_import", "valid", with_cmd("use nomodule\naction a() { publish Foo { a: 1 } }")),
         ("valid_with_ffi_call", "valid_needs_stub_ffi", with_cmd("use extmod\naction a() { publish Foo { a: extmod::get(1) } }")),
         ("valid_with_ffi_invalid_action", "validation:action", with_cmd("use extmod\naction a() {\n if extmod::yes() {\n publish Foo { a: 1 }\n }\n}")),
     ]
@@ -224,7 +224,9 @@ pub fn run(args: &Args) {
     });
 
     let mut rows = Vec::new();
-    for d in &docs {
+    let mut ordered: Vec<&(&'static str, &'static str, String)> = docs.iter().collect();
+    ordered.sort_by_key(|d| (d.1 != "valid", 0));
+    for d in ordered {
         for no_validate in [false, true] {
             for stub_ffi in [false, true] {
                 for dash_o in [false, true] {
@@ -236,35 +238,54 @@ pub fn run(args: &Args) {
     let scratch = mcx::Scratch::new("c31");
     let mut nontrivial = BTreeSet::new();
     let mut table = Vec::new();
-    for (i, row) in rows.iter().enumerate() {
-        if let Some((d, nv, sf, o)) = &only {
-            if d != row.doc || *nv != row.no_validate || *sf != row.stub_ffi || *o != row.dash_o {
-                continue;
-            }
+    // oracle first (sequential: the library validator prints, fd 1 is redirected meanwhile)
+    let mut oracles: BTreeMap<(&str, bool), Oracle> = BTreeMap::new();
+    for d in &docs {
+        for stub in [false, true] {
+            oracles.insert((d.0, stub), oracle(&d.2, stub));
         }
+    }
+    // then all CLI runs in parallel
+    use mcx::rayon::prelude::*;
+    let selected: Vec<(usize, &Row)> = rows
+        .iter()
+        .enumerate()
+        .filter(|(_, row)| match &only {
+            Some((d, nv, sf, o)) => d == row.doc && *nv == row.no_validate && *sf == row.stub_ffi && *o == row.dash_o,
+            None => true,
+        })
+        .collect();
+    let runs: Vec<(usize, mcx::child::ChildOutcome)> = selected
+        .par_iter()
+        .map(|(i, row)| {
+            let text = by_name[row.doc];
+            let dir = scratch.path().join(format!("row{i}"));
+            std::fs::create_dir_all(&dir).unwrap_or_else(|e| mcx::machinery_error(&format!("scratch: {e}")));
+            let input = dir.join("policy.md");
+            std::fs::write(&input, text).unwrap_or_else(|e| mcx::machinery_error(&format!("scratch write: {e}")));
+            let mut cmd = Command::new(&cli);
+            cmd.current_dir(&dir).arg(&input);
+            if row.no_validate {
+                cmd.arg("--no-validate");
+            }
+            if row.stub_ffi {
+                cmd.arg("--stub-ffi");
+            }
+            if row.dash_o {
+                cmd.arg("-o").arg(dir.join("custom.out"));
+            }
+            (*i, mcx::child::run(cmd, Duration::from_secs(120)))
+        })
+        .collect();
+    for (i, out) in runs {
+        let row = &rows[i];
         let text = by_name[row.doc];
-        let orc = oracle(text, row.stub_ffi);
+        let orc = oracles[&(row.doc, row.stub_ffi)].clone();
         let class = doc_class(&orc);
         let expect_accept = orc.parse && orc.compile && (row.no_validate || orc.validation_failed == Some(false));
-        // run the CLI
         let dir = scratch.path().join(format!("row{i}"));
-        std::fs::create_dir_all(&dir).unwrap_or_else(|e| mcx::machinery_error(&format!("scratch: {e}")));
-        let input = dir.join("policy.md");
-        std::fs::write(&input, text).unwrap_or_else(|e| mcx::machinery_error(&format!("scratch write: {e}")));
         let default_out = dir.join("policy.pmod");
         let o_out = dir.join("custom.out");
-        let mut cmd = Command::new(&cli);
-        cmd.current_dir(&dir).arg(&input);
-        if row.no_validate {
-            cmd.arg("--no-validate");
-        }
-        if row.stub_ffi {
-            cmd.arg("--stub-ffi");
-        }
-        if row.dash_o {
-            cmd.arg("-o").arg(&o_out);
-        }
-        let out = mcx::child::run(cmd, Duration::from_secs(60));
         rep.count("evaluations", 1);
         if out.timed_out {
             mcx::machinery_error(&format!("policy-compiler timed out on {}", row.doc));
@@ -310,7 +331,7 @@ pub fn run(args: &Args) {
             rep.violation(format!("{class} validate={val}: expected accept, cli {how}"), detail.clone(), replay.clone());
         }
         if !expect_accept && exit_ok {
-            rep.violation(format!("{class} validate={val}: expected reject, cli exited 0{}", if wrote { " and wrote a module" } else { "" }), detail.clone(), replay.clone());
+            rep.violation(format!("{class} validate={val}: expected reject, cli exited 0"), detail.clone(), replay.clone());
         }
         if !expect_accept && !exit_ok && (wrote || wrote_other) {
             rep.violation(format!("{class} validate={val}: module written although the cli failed"), detail.clone(), replay.clone());
